@@ -221,6 +221,48 @@ def r2(ctx):
         ctx.check(ok, R, f"{gen}:match", m, mt, "match() accepts the request echo or anything containing ',AirTouchN,' and nothing else", txt)
 
 
+def _collector(ctx, op: Fn):
+    """The callable handed to the protocol as `callback=`: resolved to (set expression it adds to, ok flag, description).
+    Accepted spellings: a nested async def, or a lambda / functools.partial that forwards to a method or function whose
+    body is `<first parameter>.add(<second parameter>)` with the set bound as first argument."""
+    m = op.module
+    proto = [c for c in ast.walk(op.node) if isinstance(c, ast.Call) and dotted(c.func) == "_DiscoveryDecodeProtocol"]
+    if len(proto) != 1:
+        return None, False, f"{len(proto)} protocol constructions"
+    cbv = next((k.value for k in proto[0].keywords if k.arg == "callback"), None)
+    if cbv is None:
+        return None, False, "no callback= argument"
+
+    def body_adds(fn, set_param, item_param):
+        calls = [x for x in ast.walk(fn) if isinstance(x, ast.Call)]
+        return len(calls) == 1 and dotted(calls[0].func) == f"{set_param}.add" and len(calls[0].args) == 1 and dotted(calls[0].args[0]) == item_param
+
+    if isinstance(cbv, ast.Name):
+        fn = next((x for x in ast.walk(op.node) if isinstance(x, (ast.AsyncFunctionDef,)) and x.name == cbv.id), None)
+        if fn is not None and len(fn.args.args) == 1:
+            calls = [x for x in ast.walk(fn) if isinstance(x, ast.Call)]
+            if len(calls) == 1 and (dotted(calls[0].func) or "").endswith(".add") and len(calls[0].args) == 1 and dotted(calls[0].args[0]) == fn.args.args[0].arg:
+                return ".".join(dotted(calls[0].func).split(".")[:-1]), True, norm_text(calls[0])
+        return None, False, f"callback {cbv.id} is not a nested coroutine that adds its argument to a set"
+    if isinstance(cbv, ast.Lambda) and isinstance(cbv.body, ast.Call):
+        call = cbv.body
+        d = dotted(call.func) or ""
+        target = None
+        skip = 0
+        if d.startswith("self.") and d.count(".") == 1 and op.cls is not None and d.split(".")[1] in op.cls.methods:
+            target = op.cls.methods[d.split(".")[1]]
+            skip = 0 if any((dotted(x) or "") == "staticmethod" for x in target.decorator_list) else 1
+        elif d in m.functions:
+            target = m.functions[d]
+        fixed = [a for a in call.args if not isinstance(a, ast.Starred)]
+        if target is not None and isinstance(target, ast.AsyncFunctionDef) and len(fixed) == 1 and len(target.args.args) - skip == 2:
+            p0, p1 = target.args.args[skip].arg, target.args.args[skip + 1].arg
+            if body_adds(target, p0, p1):
+                return dotted(fixed[0]), True, f"{d}({norm_text(fixed[0])}, <response>) -> {p0}.add({p1})"
+        return None, False, norm_text(cbv)[:100]
+    return None, False, norm_text(cbv)[:100]
+
+
 def r3(ctx):
     R = "C18.R3"
     f = fn_of(ctx, DISC, "AirTouchDiscoverer.search")
@@ -229,10 +271,9 @@ def r3(ctx):
     ok = len(vals) == 1 and isinstance(vals[0], ast.Call) and dotted(vals[0].func) == "set" and not vals[0].args
     ctx.check(ok, R, "search:responses-is-a-set", m, f.node, "responses = set() (identical datagrams collapse)", ", ".join(norm_text(v) for v in vals))
     op = fn_of(ctx, DISC, "AirTouchDiscoverer._open_socket")
-    cb = next((x for x in ast.walk(op.node) if isinstance(x, ast.AsyncFunctionDef) and x is not op.node), None)
-    calls = [x for x in ast.walk(cb) if isinstance(x, ast.Call)] if cb else []
-    ok = len(calls) == 1 and dotted(calls[0].func) == "responses.add" and len(calls[0].args) == 1 and dotted(calls[0].args[0]) == cb.args.args[0].arg
-    ctx.check(ok, R, "_open_socket:callback-adds-to-set", m, op.node, "the response callback does responses.add(response)", "; ".join(norm_text(c) for c in calls))
+    target_set, ok, desc = _collector(ctx, op)
+    ok = ok and target_set == op.params[1]
+    ctx.check(ok, R, "_open_socket:callback-adds-to-set", m, op.node, f"the response callback adds each response to the set handed to _open_socket ({op.params[1]})", desc)
     passed = [c for n, c in f.calls("self._open_socket")]
     ctx.check(len(passed) == 1 and len(passed[0].args) == 1 and dotted(passed[0].args[0]) == "responses", R, "search:same-set-handed-to-receiver", m, f.node, "the set that is returned is the one the receiver fills", norm_text(passed[0]) if passed else "")
     for gen, cls in (("at4", "At4DiscoveryResponse"), ("at5", "At5DiscoveryResponse")):
@@ -266,7 +307,8 @@ def r4(ctx):
     ok = False
     for c in proto:
         kw = {k.arg: norm_text(k.value) for k in c.keywords}
-        ok = kw.get("response_type") == "self._discovery_config.response_type" and kw.get("decoder") == "self._discovery_config.decoder" and kw.get("callback") == "on_discovery_reponse"
+        op_ = fn_of(ctx, DISC, "AirTouchDiscoverer._open_socket")
+        ok = kw.get("response_type") == "self._discovery_config.response_type" and kw.get("decoder") == "self._discovery_config.decoder" and _collector(ctx, op_)[1]
     ctx.check(ok, R, "_open_socket:protocol-wiring", m, None, "the protocol gets the config's response_type/decoder and the collecting callback", norm_text(proto[0])[:160] if proto else "no construction")
 
 
